@@ -23,7 +23,8 @@ Rng  == P4 \X P4
 R3   == {<<<<0, 0>>, <<0, 1>>>>, <<<<0, 0>>, <<1, 0>>>>, <<<<1, 0>>, <<1, 0>>>>}
 Uris == {"file:///a", "file:///b"}
 Loc  == {[uri |-> u, r |-> r] : u \in Uris, r \in R3}
-Foreign == {"int", "str", "none", "tuple", "float", "dict", "position-like"}
+\* "*-like": an unrelated object that merely exposes equal attributes of the same names
+Foreign == {"int", "str", "none", "tuple", "float", "dict", "position-like", "range-like", "location-like"}
 
 Cases == {[k |-> "pos", pa |-> a, pb |-> b] : a \in Pos, b \in Pos}
          \cup {[k |-> "range", ra |-> a, rb |-> b] : a \in Rng, b \in Rng}
